@@ -164,3 +164,8 @@ CHECKS.update({
     "C14": ("6/C14", "A step waiting out a retry delay D=8 s and a step whose wait_for_event timeout T=8 s is pending, on the real server stack over MemoryWorkflowStore / SqliteWorkflowStore with idle_timeout in {D/4, D, 4D} x {no restart, process stop after each of the first 7 persisted ticks + restart on the surviving store} x all orders of idle-timer, release and retry / timeout timer firings up to the horizon (every timer below 1000 s fired); at the horizon the handler must be completed with the retried / timed-out result.",
             "Three known findings (timers live only in the runner's memory: lost on release and on restart; idle-flagged handlers are skipped at startup) cover every configuration in which the run is released or restarted before / around the timer; the remaining configurations (timer fires first, no restart) must hold and alarm otherwise.", CRASH_TECH),
 })
+
+CHECKS.update({
+    "C27": ("6/C27", "JOURNAL SEAM ONLY: 4 workflows (chain, fan-out with two concurrent workers + order-sensitive fan-in, zero-delay retry, waiter + external event) on the real control loop with the real InternalDBOSAdapter.wait_for_next_task, TaskJournal and SqliteJournalCrud (DB file) over modelled DBOS durable operations (function ids in call order; a recorded result is returned on recovery without re-execution at an explorer-chosen moment) x every completion order within the deviation bound x process stop after every durable write (operation result or journal row) x recovery; the recovered tick log must extend the original one, durable operations must be called in the recorded order, and the run must finish.",
+            "Partial claim: the dbos library, DBOSRuntime.run_workflow, DBOS streams and Postgres are not executed; the DBOS durable-operation semantics are a model written from its documentation (stated in the evidence assumptions). No scheduled wake-ups in the programs (timeout outcomes of wait_for_next_task are not journaled).", CRASH_TECH),
+})
